@@ -625,25 +625,79 @@ func c12RunCase(x *h.Ctx, c c12Case) {
 				}
 			}
 		}
-		// ---- O6
-		if !errOK {
-			fields, ferr := def.ResolveConstraintsFields(got)
-			if ferr != nil {
-				x.Violate("O6-resolve-fields-error", "ResolveConstraintsFields failed on validated credentials: %v", ferr)
-			} else {
-				want := map[string]any{}
-				for id, ci := range honest {
-					for k, v := range sat[c12DescIndex(ref, id)][ci].values {
-						want[k] = v
-					}
+	}
+
+	// ---- O6: extracted field values. Own map = what Validate returned, else (as discovery does) the Match result.
+	// Called as auth/api/iam calls it: with 0-3 additional entries whose ids belong to other definitions; those must
+	// contribute nothing and change nothing. Repeated, because the function ranges over a map.
+	if !errOK {
+		own := got
+		if verr != nil {
+			own = map[string]vc.VerifiableCredential{}
+			for i, m := range mappings {
+				own[m.Id] = selected[i]
+			}
+		}
+		want := map[string]any{}
+		for id, ci := range honest {
+			for k, v := range sat[c12DescIndex(ref, id)][ci].values {
+				want[k] = v
+			}
+		}
+		if len(want) > 0 {
+			x.Class("O6-field-values-compared")
+			for _, v := range want {
+				x.Class("O6-value:" + c12JSONType(c12Norm(v)))
+			}
+		}
+		fields, ferr := def.ResolveConstraintsFields(own)
+		if ferr != nil {
+			x.Violate("O6-resolve-fields-error", "ResolveConstraintsFields failed on validated credentials: %v", ferr)
+		} else {
+			c12CompareFields(x, want, fields)
+		}
+		merged := map[string]vc.VerifiableCredential{}
+		for k, v := range own {
+			merged[k] = v
+		}
+		var foreignDesc []string
+		for _, f := range c.Foreign {
+			if ref.descriptor(f.ID) != nil || len(built) == 0 {
+				continue
+			}
+			ci := f.Cred % len(built)
+			merged[f.ID] = built[ci].vc
+			foreignDesc = append(foreignDesc, fmt.Sprintf("%q→%s", f.ID, built[ci].spec.ID))
+			for di := range ref.Descriptors {
+				if sat[di][ci].ok {
+					x.Class("O6-foreign-credential-satisfies-a-descriptor")
 				}
-				if len(want) > 0 {
-					x.Class("O6-field-values-compared")
-					for _, v := range want {
-						x.Class("O6-value:" + c12JSONType(c12Norm(v)))
-					}
+			}
+		}
+		if len(merged) > len(own) && len(x.Violations()) == 0 {
+			x.Class("O6-with-foreign-entries")
+			rep := c.Repeat
+			if rep < 1 {
+				rep = 1
+			}
+			if rep > 64 {
+				rep = 64
+			}
+			bad, failed := 0, 0
+			for i := 0; i < rep; i++ {
+				f, err := def.ResolveConstraintsFields(merged)
+				if err != nil {
+					failed++
+				} else if !c12DeepEqualJSON(want, map[string]any(f)) {
+					bad++
 				}
-				c12CompareFields(x, want, fields)
+			}
+			// (messages carry no values of a particular repetition: which entry wins depends on map order)
+			if failed > 0 {
+				x.Violate("O6-foreign-entry-makes-resolve-fail", "ResolveConstraintsFields fails when the credential map also holds entries for descriptors of other definitions (%s)", strings.Join(foreignDesc, ", "))
+			} else if bad > 0 {
+				x.Violate("O6-foreign-entry-changes-result", "ResolveConstraintsFields returns other values than %s when the credential map also holds entries for descriptors of other definitions (%s)",
+					c12MustJSON(x, want), strings.Join(foreignDesc, ", "))
 			}
 		}
 	}
